@@ -20,8 +20,12 @@ def scratch(tag):
     return d
 
 
-def java_cmd(heap='4g', depth_first=False):
+def java_cmd(heap='4g', depth_first=False, tmpdir=None):
     cmd = ['java', '-XX:+UseParallelGC', '-Xmx' + heap]
+    if tmpdir:
+        # TLC creates a scratch directory per run under java.io.tmpdir: keep it inside the check's own work directory
+        os.makedirs(tmpdir, exist_ok=True)
+        cmd.append('-Djava.io.tmpdir=' + tmpdir)
     if depth_first:
         cmd.append('-Dtlc2.tool.queue.IStateQueue=StateDeque')
     cmd += ['-cp', JAR, 'tlc2.TLC']
@@ -66,7 +70,7 @@ def run(module, cfg, workdir, workers=16, timeout=600, coverage=False, simulate=
             f.write('\n'.join(lines) + '\n')
     meta = os.path.join(workdir, 'meta.%s' % outname)
     shutil.rmtree(meta, ignore_errors=True)
-    cmd = java_cmd(heap, depth_first) + ['-workers', str(workers), '-metadir', meta, '-noGenerateSpecTE',
+    cmd = java_cmd(heap, depth_first, tmpdir=os.path.join(workdir, 'jtmp')) + ['-workers', str(workers), '-metadir', meta, '-noGenerateSpecTE',
                             '-config', cfgp]
     if coverage:
         cmd += ['-coverage', '1']
